@@ -95,6 +95,11 @@ def r2_construction(prog, rep: Report, im):
     starts_arr = [k for k, v in apps.items() if v == s]
     ends_arr = [k for k, v in apps.items() if v == e]
     vals_arr = [k for k, v in apps.items() if v == val]
+    if not (starts_arr and ends_arr and vals_arr):
+        r_ = interval_roles(f)
+        if r_.get("$comprehension") and all(k_ in r_ for k_ in ("starts", "ends", "values")):
+            # the three arrays are built by one unfiltered comprehension each over mapping.items(): aligned by construction
+            starts_arr, ends_arr, vals_arr = [r_["starts"]], [r_["ends"]], [r_["values"]]
     rep.check("C16.R2", f, "recording", len(starts_arr) == 1 and len(ends_arr) == 1 and len(vals_arr) == 1,
               f"start -> {starts_arr}, end -> {ends_arr}, value -> {vals_arr} appended in the same iteration",
               f"start/end/value of an interval are not appended to three arrays in the same iteration: {apps}",
@@ -112,6 +117,10 @@ def r2_construction(prog, rep: Report, im):
     rel = kwarg(c, "eq_relation", 3)
     nodup = kwarg(c, "force_no_dup_check", 2)
     good = a_starts is not None and a_ends is not None and src(a_starts) == starts_arr[0] and src(a_ends) == ends_arr[0]
+    if not good and a_starts is not None and a_ends is None and src(a_starts) in (f"{mapping}.keys()", mapping, f"list({mapping}.keys())", f"list({mapping})"):
+        good = True            # the keys *are* the (start, end) pairs, in the order the arrays were filled
+    if isinstance(rel, ast.Name):
+        rel = Flow(f.node).expand(rel)              # overlaps = SpanSetOverlapsEqRelation()
     rel_ok = rel is not None and isinstance(rel, ast.Call) and src(rel.func) == "SpanSetOverlapsEqRelation"
     dup_ok = nodup is None or const_value(nodup) is False
     rep.check("C16.R2", f, "disjointness:spanset", good and rel_ok and dup_ok,
@@ -188,6 +197,26 @@ def interval_roles(init: Func) -> Dict[str, str]:
                 roles["sorted"] = appended[e]
             if i in appended:
                 roles["perm"] = appended[i]
+    # comprehension form:  <starts> = [start for (start, _), _ in mapping.items()]  (one unfiltered comprehension per array)
+    for n in walk_own(init.node):
+        if isinstance(n, ast.Assign) and len(n.targets) == 1 and isinstance(n.value, ast.ListComp) and len(n.value.generators) == 1 \
+                and not n.value.generators[0].ifs and isinstance(n.value.elt, ast.Name):
+            g = n.value.generators[0]
+            t = g.target
+            if isinstance(g.iter, ast.Call) and isinstance(g.iter.func, ast.Attribute) and g.iter.func.attr == "items" \
+                    and isinstance(t, ast.Tuple) and len(t.elts) == 2:
+                k, v = t.elts
+                nm = n.value.elt.id
+                if nm == "_":
+                    continue
+                if isinstance(k, ast.Tuple) and len(k.elts) == 2 and all(isinstance(x, ast.Name) for x in k.elts):
+                    if k.elts[0].id == nm:
+                        roles.setdefault("starts", src(n.targets[0]))
+                    elif k.elts[1].id == nm:
+                        roles.setdefault("ends", src(n.targets[0]))
+                if isinstance(v, ast.Name) and v.id == nm:
+                    roles.setdefault("values", src(n.targets[0]))
+                roles.setdefault("$comprehension", "yes")
     # argsort form:  perm = sorted(range(len(<ends>)), key=<ends>.__getitem__ | lambda i: <ends>[i]);  sorted = [<ends>[i] for i in perm]
     if "perm" not in roles or "sorted" not in roles:
         a = argsort_construction(init)
